@@ -130,6 +130,40 @@ Theorem C16_sync_round : forall sc_r sc_p s_r s_p j_r t_r j_p t_p,
 Proof. exact sync_round_model. Qed.
 Print Assumptions C16_sync_round.
 
+(* Goroutine accounting at ANY settled instant after the return (also while clocks are still
+   running or never return): what is alive is covered by the clocks whose calls have not returned
+   yet - one producer each and one drainer waiting for them. *)
+Theorem C16_alive_accounting : forall sc s j t tp, wf sc -> reachable sc s ->
+  coll s = Ret j t -> urgent s = false -> (forall x, In x (pending sc s) -> tp < x) ->
+  C16_alive_ok sc t tp (Z.of_nat (goroutines s)) = true.
+Proof. exact alive_ok_model. Qed.
+Print Assumptions C16_alive_accounting.
+
+(* The count collectMeasurements returns is the length of the front (observed through the hook
+   core/client.VerifCollectMeasurements, kind collect.raw). *)
+Theorem C16_oracle_raw : forall sc s j t, wf sc -> reachable sc s -> coll s = Ret j t ->
+  C16_raw_ok sc t j (ms s) = true.
+Proof. exact raw_ok_model. Qed.
+Print Assumptions C16_oracle_raw.
+
+(* Guard and collector composed into one call (gc_init = length check + CAS, gc_step = collector
+   transition, the deferred reset fires with Quit/Exit): in every reachable state of the call the
+   collector object counts exactly one call in progress while the collector loops, and is idle
+   again from the instant the collector returns, which is min(deadline, last completion).  This
+   is the release instant the dispatcher uses for histories. *)
+Theorem C16_guard_released_at_return : forall sc id g x0 x, ginv g -> gc_init sc id g = Some x0 ->
+  gc_reachable sc id x0 x ->
+  wf sc /\ reachable sc (gc_s x) /\
+  match coll (gc_s x) with
+  | Loop _ _ => g_active (gc_g x) = [id] /\ g_numops (gc_g x) = 1
+  | Ret _ t => gc_g x = {| g_numops := 0; g_active := [] |} /\ t = expected_ret sc
+  end.
+Proof.
+  intros sc id g x0 x Hg Hi Hr. destruct (guard_released_at_return sc id g x0 x Hg Hi Hr) as [Hwf [H1 H2]].
+  split; [exact Hwf|]. split; [exact H1|exact H2].
+Qed.
+Print Assumptions C16_guard_released_at_return.
+
 (* lts_outcomes_allowed: the schedule search of the dispatcher (Extract/GlueC16.v) only ever
    produces states of the model, so an observation it accepts is an outcome of the LTS *)
 Theorem C16_guided_schedules_are_model_schedules : forall fuel sc lim g s0 s g', reachable sc s0 ->
